@@ -10,6 +10,7 @@ import HC.Proofs.CreateTotal
 import HC.Proofs.BlockUpgrade
 import HC.Proofs.BlockGrow
 import HC.Proofs.BlockGrowWriter
+import HC.Proofs.BlockNew
 /-!
 # C03 — any honest proof is accepted and replicas converge to the writer's data
 
@@ -520,5 +521,26 @@ theorem honest_blockgrowth_is_writers (C : Crypto) (bs : Array Bytes) (n : Nat) 
   apply List.map_congr_left
   intro q hq
   exact (Growth.nodeAt_extract C bs n hn q.1 q.2 (Growth.up_bound m n _ 0 us (Offsets.cover_roots n) hup q hq)).symm
+
+/-- **block of the new part + upgrade in one proof (tree level)** — the usual shape of a download.  For every replica state
+    reached by honest replication (`RepRAt` at length `m`), every upgrade `m → n` of the writer's log with its honest
+    position list `us`, and every block index `m ≤ i < n`: the block lies under exactly one node `(k, i / 2^k)` of `us`; the
+    proof made of the block's bytes, its reference sibling path up to that node, the *other* nodes of `us` and the
+    writer's signature for `n` passes `verify_proof` (the block climb recomputes the node, `verify_upgrade` takes it from
+    its extra slot exactly when its turn comes and reports it as consumed, so no stored node is compared); the changeset
+    holds the reference roots, length and byte length of `n` and the signature, is commitable, and records reference
+    nodes only.  (Byte offset and commit at core level for this shape are covered by the run.) -/
+theorem honest_new_block_with_upgrade_accepted (C : Crypto) (hC : TreeStore.HashWF C) (bs : Array Bytes) (m n : Nat) (c : Core) (d : Disk)
+    (held : Nat → Bool) (h : Growth.RepRAt C bs m c d held) (hm0 : 0 < m) (hmn : m < n) (hn : n ≤ bs.size) (us : List (Nat × Nat))
+    (hup : Growth.Up m 0 (RefTree.rootsStack n).reverse us) (sig : Bytes) (hsl : sig.length = 64)
+    (hver : C.verify c.publicKey (Growth.signableAt C bs n c.tree.fork) sig = true) (i : Nat) (hmi : m ≤ i) (hi : i < n) :
+    ∃ (a b : List (Nat × Nat)) (k : Nat) (cs' : Changeset), us = a ++ (k, i / 2 ^ k) :: b ∧ (i / 2 ^ k + 1) * 2 ^ k ≤ n ∧ m ≤ i / 2 ^ k * 2 ^ k
+      ∧ c.tree.verifyProof C d.tree
+          ⟨c.tree.fork, some ⟨i, bs.getD i [], Complete.sibPath C bs 0 i k⟩, none, none,
+            some ⟨m, n - m, (a ++ b).map (fun p => RefTree.nodeAt C bs p.1 p.2), [], sig⟩⟩ c.publicKey = .ok cs'
+      ∧ cs'.roots = Growth.rootsAt C bs n ∧ cs'.length = n ∧ cs'.byteLength = Offsets.psum bs n ∧ cs'.upgraded = true
+      ∧ cs'.signature = some sig ∧ cs'.fork = c.tree.fork ∧ c.tree.commitable cs' = true
+      ∧ (∀ x ∈ cs'.rnodes, ∃ dd o, x = RefTree.nodeAt C bs dd o) :=
+  BlockNew.honest_new_block_upgrade_accepted C hC bs m n c d held h hm0 hmn hn us hup sig hsl hver i hmi hi
 
 end HC.C03
